@@ -107,7 +107,8 @@ def apply_fault(case, fault, ch):
     b = bytearray(case.bytes)
     info = case.info
     if fault == 'stop':
-        new = ch.choice([b'7778', b'\x00\x00\x00\x00', b'777\x00', b'8777', b'7777'[::-1][:3] + b'x', b'    '])
+        new = ch.choice([b'7778', b'\x00\x00\x00\x00', b'777\x00', b'8777', b'7777'[::-1][:3] + b'x', b'    ',
+                         b'\xff\xfe\x80\x81', b'77\xb77', b'777\n', b'\xe9\xe9\xe9\xe9'])
         b[-4:] = new
         return bytes(b), {'fault': 'stop signature overwritten', 'with': new.hex()}
     if fault in ('unknown_element', 'unknown_sequence'):
